@@ -81,6 +81,9 @@ func (v *VerifLoop) CloseAll() { v.eng.closeEventLoops() }
 func (v *VerifLoop) EventLoop() EventLoop { return v.el }
 func (v *VerifLoop) Engine() Engine       { return Engine{v.eng} }
 func (v *VerifLoop) Count() int           { return int(v.el.countConn()) }
+
+// SetThreshold sets the poller's high-priority events threshold (see netpoll.Poller.Trigger).
+func (v *VerifLoop) SetThreshold(n int32) { v.el.poller.VerifSetThreshold(n) }
 func (v *VerifLoop) ListenerFds() (fds []int) {
 	for _, ln := range v.lns {
 		fds = append(fds, ln.fd)
